@@ -69,6 +69,11 @@ Addrs(v, lay) == AddrAcc(v, lay, 1, Base(lay), [count |-> 0, info |-> 0, body |-
                     classifies them through Rd32 (which yields Huge from 2^31 on);
    "wrapsum"        size word = 2^32 - (absolute start address): start + size is 0 modulo 2^32 although the
                     range leaves the data region by almost 4 GiB. *)
+(* "overcount" / "overfields"   NOT errors: record j's range is the Count word (4 bytes) / the index, size and
+                    offset fields of the first record (12 bytes).  Those are ordinary bytes of the data region, so
+                    the extraction of that record is exactly those bytes (Extract says which).  A range that touches a
+                    NAME cell is different: what the image holds there is a file-relative text offset, and the
+                    statement does not say what is extracted - see TouchesNameCell. *)
 (* "nameptr"        [.., target |-> "zero" | "base" | "ds4" | "ds1" | "ds", listed |-> BOOLEAN]: the name cell of record j
                     holds an ADDRESS of the data region (its start, the record itself, 4 / 1 bytes before the end,
                     the end) instead of a string reference, either as a pointer cell listed in the pointer table
@@ -87,10 +92,14 @@ RecBytes(v, lay, ad, err, j) ==
   LET f == lay.recs[j]
       len == Len(BodyOf(v[f]))
       hit == err.j = j
-      size == IF err.kind = "end" /\ hit THEN (ad.end - ad.body[f]) + 1                  \* one byte past the region
+      size == IF err.kind = "overcount" /\ hit THEN 4
+              ELSE IF err.kind = "overfields" /\ hit THEN 12
+              ELSE IF err.kind = "end" /\ hit THEN (ad.end - ad.body[f]) + 1             \* one byte past the region
               ELSE IF err.kind \in {"start", "words"} /\ hit /\ len = 0 THEN 1            \* the planted range is not empty
               ELSE len
-      off == IF err.kind = "start" /\ hit THEN (ad.end - Base(lay)) + 3                   \* starts past the region
+      off == IF err.kind = "overcount" /\ hit THEN ad.count - Base(lay)
+             ELSE IF err.kind = "overfields" /\ hit THEN (ad.info + 4) - Base(lay)
+             ELSE IF err.kind = "start" /\ hit THEN (ad.end - Base(lay)) + 3              \* starts past the region
              ELSE ad.body[f] - Base(lay)
       sizeW == IF err.kind = "words" /\ hit /\ err.sw # <<>> THEN Word32(err.sw, "le")
                ELSE IF err.kind = "wrapsum" /\ hit THEN Word32(NegWord(IF ad.body[f] = 0 THEN 1 ELSE ad.body[f]), "le")
@@ -142,7 +151,15 @@ LabelAddr(c, name) ==
 StringAt(c, a) ==
   IF \E i \in 1..Len(c.text) : c.text[i][1] = a
   THEN Str(c.text[CHOOSE i \in 1..Len(c.text) : c.text[i][1] = a][2]) ELSE NoStr
-FirstWordZero(c) == c.data[1] = 0 /\ c.data[2] = 0 /\ c.data[3] = 0 /\ c.data[4] = 0
+(* The first data word OF THE IMAGE.  A string cell holds the (non-zero) offset of its text, a pointer cell its
+   target; content.data carries no meaningful bytes for such cells, so the word is zero iff cell 0 is not a string
+   cell and either is a pointer cell with target 0 or is plain data with four zero bytes.  (An un-padded arc
+   may begin with the Info table: its first word is then the text offset of the first record's name.) *)
+FirstWordZero(c) ==
+  /\ ~\E i \in 1..Len(c.text) : c.text[i][1] = 0
+  /\ IF \E i \in 1..Len(c.ptrs) : c.ptrs[i][1] = 0
+     THEN \E i \in 1..Len(c.ptrs) : c.ptrs[i][1] = 0 /\ c.ptrs[i][2] = 0
+     ELSE c.data[1] = 0 /\ c.data[2] = 0 /\ c.data[3] = 0 /\ c.data[4] = 0
 PadOf(c) == IF FirstWordZero(c) THEN PadLenHdr ELSE 0
 
 RecName(c, ia, j) == StringAt(c, ia + RecSize * (j - 1))
@@ -171,12 +188,21 @@ Extract(c) ==
                              <<RecName(c, ia, j).v,
                                SubSeq(c.data, RecOff(c, ia, j) + PadOf(c) + 1, RecOff(c, ia, j) + PadOf(c) + RecLen(c, ia, j))>>]]
 
+\* some (non-empty) recorded range shares a byte with a string or pointer cell
+TouchesNameCell(c) ==
+  LET ca == LabelAddr(c, CountName)  ia == LabelAddr(c, InfoName) IN
+  /\ Extract(c).ok
+  /\ \E j \in 1..Rd32(c.data, ca, "le") :
+       LET lo == RecOff(c, ia, j) + PadOf(c)  hi == lo + RecLen(c, ia, j) IN
+       \/ \E i \in 1..Len(c.text) : lo < c.text[i][1] + 4 /\ c.text[i][1] < hi
+       \/ \E i \in 1..Len(c.ptrs) : lo < c.ptrs[i][1] + 4 /\ c.ptrs[i][1] < hi
 AsSet(files) == { files[i] : i \in 1..Len(files) }
 DistinctNames(files) == \A i, j \in 1..Len(files) : files[i][1] = files[j][1] => i = j
 
 \* the layout rules of the statement
 Conforms(c) ==
   /\ Extract(c).ok
+  /\ ~TouchesNameCell(c)
   /\ DistinctNames(Extract(c).files)
   /\ FirstWordZero(c) => (Len(c.data) >= PadLenHdr /\ \A p \in 1..PadLenHdr : c.data[p] = 0)
 \* an error the statement names
@@ -190,7 +216,8 @@ EmptyRangePastEnd(c) ==
 \* result = [ok |-> TRUE, files |-> sequence of <<name, bytes>>] | [ok |-> FALSE, files |-> <<>>, ...]
 \* (a panic has neither shape: records with other fields are never equal to these)
 Allowed(c, result) ==
-  IF Extract(c).ok
+  IF TouchesNameCell(c) THEN TRUE           \* the statement is silent about ranges over string / pointer cells
+  ELSE IF Extract(c).ok
   THEN /\ DOMAIN result = {"ok", "files"} /\ result.ok
        /\ Len(result.files) = Len(Extract(c).files)
        /\ AsSet(result.files) = AsSet(Extract(c).files)
